@@ -14,36 +14,45 @@ BUDGET_S = {'quick': 70, 'thorough': 900}
 RULE = ('exhaustive: all sorted trains of length <= L on a small time grid (equal times included) x '
         'labelings over <= 3 clusters x cluster-id lists in every order incl. ids without spikes x '
         '(bin, half-window) grid x symmetrize on/off, windows that are odd, even and fractional multiples of the bin, '
-        'bins that are a whole or a fractional number of samples, negative times; then random long trains; the '
-        'helpers _increment / _diff_shifted / _create_correlograms_array on small arrays; firing_rate with '
-        'cluster_ids given or None, durations 0 / None / dyadic / non-dyadic. non-trivial = at '
+        'bins that are a whole or a fractional number of samples, negative times; then random long trains; then '
+        'ARBITRARY DOUBLES: decimal bins/windows (0.1/2, 0.05/1, 0.001/0.5, 0.002/0.1, ...) x rates 30000/25000/1000/10/... x '
+        'spike times on the sample grid (fl(T/rate), dyadic) and off it (random, an ulp around a sample boundary), bins / '
+        'windows an ulp around a whole number of samples / bins, clipped bins; the float model itself (op fl: '
+        'roundDouble against float(Fraction) and against products / quotients of random doubles: ties, powers of two, '
+        'tiny / huge magnitudes); the helpers _increment / _diff_shifted / _create_correlograms_array on small arrays; '
+        'firing_rate with cluster_ids given or None, durations 0 / None / dyadic / non-dyadic. non-trivial = at '
         'least one spike pair inside the window (model array has a non-zero entry)')
 ASSUMPTIONS = [
     'float -> sample conversion ((times*rate).astype(int64), int(rate*clip(bin)), 2*int(.5*clip(window)/clip(bin))+1) is '
-    'MODELLED in Lean over exact rationals (Model/C15b.lean); the harness only generates inputs for which it verifies '
-    'with exact fractions that every float operation of these expressions is exact (or, for the one division, that '
-    'rounding does not cross an integer), and passes the exact rational values of the floats to the model',
+    'MODELLED in Lean with IEEE-754 binary64 rounding (Model/Fl.lean roundDouble, Model/C15c.lean): the model gets the exact '
+    'rational values of the doubles handed to the real code and returns the integers; NO exactness filter on the inputs. '
+    'The rounding model itself is compared on every run with float(Fraction(p, q)) and with a*b, a/b of the float unit '
+    '(Python scalars and NumPy arrays); a mismatch there is MACHINERY, never an alarm',
+    'grading of a disagreement: the property quantifies over sample rates for which time*rate is exact, so a real output '
+    'that differs from the sample-level pair counts of the model\'s integers is SPEC when every float product time*rate is '
+    'a whole number and bin/window are inside the clipping interval, and CORR (real code differs from the model of the '
+    'code) otherwise; inputs outside the normal range of binary64 (FlDom false) are never judged',
     'firing_rate: the model computes count_i*count_j*bin/duration as a rational; compared exactly when the two float '
     'operations of the code are exact on the input, with the DESIGN §3 tolerance 2^-40 (relative) otherwise',
 ]
 
 
 def _prep(case):
+    """-> (rate, spike times (float64 / float32 array), bin_size, window) exactly as handed to the real code"""
     r = float(case['rate'])
-    T = np.array(case['t'], dtype=np.int64)
-    times = T / r
+    if 'times' in case:
+        # explicit doubles (JSON floats round-trip exactly through repr)
+        times = np.array(case['times'], dtype=np.float64)
+        bin_size, window = float(case['bin_size']), float(case['window'])
+    else:
+        # built from integers by FLOAT operations: sample numbers / rate, `bin` samples (optionally plus a fraction of a
+        # sample: the code truncates rate*bin_size), window = (2*half+1) bins or another multiple `wmult` of the bin
+        times = np.array(case['t'], dtype=np.int64) / r
+        bin_size = (case['bin'] + case.get('binfrac', 0.)) / r
+        window = case.get('wmult', 2 * case['half'] + 1) * bin_size
     if case.get('tdtype'):
-        times = times.astype(case['tdtype'])         # e.g. float32 spike times (exactly representable ones only, see exact())
-    # bin: `bin` samples, optionally plus a fraction of a sample (the code truncates rate*bin_size)
-    bin_size = (case['bin'] + case.get('binfrac', 0.)) / r
-    # window: (2*half+1) bins by default; `wmult` gives another multiple of the bin with the same half window
-    window = case.get('wmult', 2 * case['half'] + 1) * bin_size
-    return r, T, times, bin_size, window
-
-
-@functools.lru_cache(maxsize=1 << 16)
-def _fr(x):
-    return Fraction(x)
+        times = times.astype(case['tdtype'])         # e.g. float32 spike times (converted exactly to float64 by the code)
+    return r, times, bin_size, window
 
 
 @functools.lru_cache(maxsize=1 << 16)
@@ -55,28 +64,19 @@ def _is_float(fr):
     return Fraction(float(fr)) == fr
 
 
-def exact(case):
-    """the harness-side verification (exact fractions) that on this input the float conversions of the code give the
-    integers the exact rational computation gives: each float product / quotient is either exact or its rounding does
-    not cross an integer"""
-    r, T, times, bin_size, window = _prep(case)
-    fr = _fr(r)
-    for t, s in zip(times.tolist(), T.tolist()):
-        if math.trunc(_fr(t) * fr) != s or int(t * r) != s:
-            return False
-    if not (1e-5 <= bin_size <= 1e5 and 1e-5 <= window <= 1e5):            # clip is the identity
-        return False
-    fb, fw = _fr(float(bin_size)), _fr(float(window))
-    if not (int(r * float(bin_size)) == math.trunc(fr * fb) == case['bin']):
-        return False
-    q = fw / 2 / fb                                                         # .5*window is exact; one division
-    return int(float(.5 * window / bin_size)) == int(q) == case['half']
+def _fl_operands(it):
+    """exact rational operation of one item of an `fl` case"""
+    k = it[0]
+    if k == 'frac':
+        return Fraction(it[1], it[2])
+    a, b = Fraction(float.fromhex(it[1])), Fraction(float.fromhex(it[2]))
+    return a * b if k == 'mul' else a / b
 
 
 def impl(case):
     from phylib.stats.ccg import correlograms, firing_rate
     if case['op'] == 'ccg':
-        r, T, times, bin_size, window = _prep(case)
+        r, times, bin_size, window = _prep(case)
         base = case.get('idbase', 0)          # the same labelling with every cluster id shifted by a constant
         sc = np.array([c + base for c in case['sc']], dtype=getattr(np, case.get('dtype', 'int64')))
         ids = case.get('ids')
@@ -120,6 +120,25 @@ def impl(case):
                 ids = tuple(ids)
         out = firing_rate(sc, cluster_ids=ids, bin_size=case['bs'], duration=case['dur'])
         return dict(arr=np.asarray(out).tolist())
+    if case['op'] == 'fl':
+        # the float unit itself (no phylib code): correctly rounded conversion of p/q, products and quotients of doubles,
+        # as Python scalars and as NumPy float64 arrays (the path `spike_times * sample_rate` takes)
+        out, np_differs = [], False
+        for it in case['items']:
+            if it[0] == 'frac':
+                try:
+                    v = float(Fraction(it[1], it[2]))
+                except OverflowError:
+                    v = math.inf
+            else:
+                a, b = float.fromhex(it[1]), float.fromhex(it[2])
+                v = a * b if it[0] == 'mul' else a / b
+                w = (np.array([a, a]) * np.array([b, b]) if it[0] == 'mul' else np.array([a, a]) / np.array([b, b]))
+                w2 = np.float64(a) * b if it[0] == 'mul' else np.float64(a) / b
+                if not (float(w[0]) == v == float(w[1]) == float(w2)):
+                    np_differs = True
+            out.append(None if (math.isinf(v) or math.isnan(v)) else list(Fraction(v).as_integer_ratio()))
+        return dict(vals=out, np_differs=np_differs)
     if case['op'] in ('increment', 'diff_shifted', 'create'):
         # the helpers named in the property's anchors; a refactoring that removes one is not an alarm
         import phylib.stats.ccg as ccg
@@ -142,14 +161,20 @@ def impl(case):
 
 def model_query(case, impl_res):
     if case['op'] == 'ccg':
-        r, T, times, bin_size, window = _prep(case)
-        q = dict(p=PID, op='ccg_q', times=[_frac(t) for t in times.tolist()], sc=case['sc'], rate=_frac(r),
+        r, times, bin_size, window = _prep(case)
+        q = dict(p=PID, op='ccg_fl', times=[_frac(t) for t in times.tolist()], sc=case['sc'], rate=_frac(r),
                  bin_size=_frac(float(bin_size)), window=_frac(float(window)), sym=case['sym'])
         if case.get('ids') is not None:
             q['ids'] = case['ids']
-        if len(case['t']) <= 8:
+        if len(case['sc']) <= 8:
             q['spec'] = 1
         return q
+    if case['op'] == 'fl':
+        xs = []
+        for it in case['items']:
+            x = _fl_operands(it)
+            xs.append(x.numerator if x.denominator == 1 else [x.numerator, x.denominator])
+        return dict(p=PID, op='fl', xs=xs)
     if case['op'] == 'firing':
         q = dict(p=PID, op='firing_q', sc=case['sc'], bin_size=DC.frac(case['bs']))
         if case.get('ids') is not None:
@@ -160,12 +185,9 @@ def model_query(case, impl_res):
     return {k: v for k, v in case.items() if not k.startswith('_')}
 
 
-def oracle_ccg(case):
-    """the property statement, brute force (pairs a<b)"""
-    t, sc, half, B = case['t'], case['sc'], case['half'], case['bin']
-    ids = case.get('ids')
-    if ids is None:
-        ids = sorted(set(sc))
+def oracle_ccg(t, sc, ids, B, half, sym):
+    """the property statement at the sample level, brute force (pairs a<b): spike samples `t`, bin of `B` samples,
+    `half` = half window in bins — the integers come from the Lean model of the float conversions"""
     nc = len(ids)
     pos = {c: i for i, c in enumerate(ids)}
     one = [[[0] * (half + 1) for _ in range(nc)] for _ in range(nc)]
@@ -175,7 +197,7 @@ def oracle_ccg(case):
             k = (t[b] - t[a]) // B
             if k <= half:
                 one[pos[sc[a]]][pos[sc[b]]][k] += 1
-    if not case['sym']:
+    if not sym:
         return one
     out = [[None] * nc for _ in range(nc)]
     for i in range(nc):
@@ -189,6 +211,19 @@ def judge(case, impl_res, ans):
     if 'err' in ans:
         return 'MACHINERY: driver error %s' % ans['err']
     m = ans['ok']
+    if case['op'] == 'fl':
+        # my model of IEEE rounding against the float unit: never an alarm
+        if 'raised' in impl_res:
+            return 'MACHINERY: float unit stream raised %s (%s)' % (impl_res['raised'], impl_res['msg'])
+        ok = impl_res['ok']
+        if ok['np_differs']:
+            return 'MACHINERY: NumPy and Python float products / quotients differ'
+        for it, v, mv, inr in zip(case['items'], ok['vals'], m['model'], m['inrange']):
+            if not inr:
+                continue          # subnormal result or overflow: not modelled (tallied)
+            if v is None or DC.to_fraction(mv) != Fraction(v[0], v[1]):
+                return 'MACHINERY: roundDouble differs from the float unit on %s: model %s, float unit %s' % (it, mv, v)
+        return None
     if case['op'] in ('increment', 'diff_shifted', 'create'):
         # helper level: the Lean definition against the real helper (None = the helper raises ValueError)
         if 'raised' in impl_res:
@@ -202,32 +237,45 @@ def judge(case, impl_res, ans):
         if real != m['model']:
             return 'CORR: %s: real %s, model %s' % (case['op'], real, m['model'])
         return None
-    if m.get('model') is None:
-        return 'MACHINERY: generated an out-of-domain case (cluster not in id list)'
-    if m.get('model_eq_spec') is False:
-        return 'MACHINERY: model differs from its Lean spec (contradicts the theorem)'
-    if 'raised' in impl_res:
-        return 'SPEC: real code raised %s (%s) at %s on an in-domain input' % (
-            impl_res['raised'], impl_res['msg'], impl_res['where'])
-    arr = impl_res['ok']['arr']
     if case['op'] == 'ccg':
-        # the integers the Lean model derives from the exact rational inputs are the generator's
-        if m['samples'] != case['t'] or m['binsize'] != case['bin'] or m['winsize'] != 2 * case['half'] + 1:
-            return 'MACHINERY: the Lean model of the float conversions (%s, %s, %s) differs from the generated integers' % (
-                m['samples'][:5], m['binsize'], m['winsize'])
-        exp = oracle_ccg(case)
+        if m.get('fl_dom') is False:
+            return None       # a product / quotient outside the normal range of binary64: not modelled (tallied)
+        if m.get('model') is None:
+            if m['binsize'] < 1:
+                return None   # the model refuses (assert binsize >= 1): outside the quantifier whatever the real code does
+            return 'MACHINERY: generated an out-of-domain case (cluster not in id list)'
+        if m.get('model_eq_spec') is False:
+            return 'MACHINERY: model differs from its Lean spec (contradicts the theorem)'
+        # the integers of the Lean model of the float conversions define the sample-level predicate
+        half = m['winsize'] // 2
+        exp = oracle_ccg(m['samples'], case['sc'], m['ids'], m['binsize'], half, case['sym'])
         if exp != m['model']:
             return 'MACHINERY: python oracle differs from the Lean model'
+        # in the property's quantifier (float products time*rate whole, no clipping) a disagreement is a failure of the
+        # property; elsewhere the real code has left the model of the code
+        kind = 'SPEC' if (m['on_grid'] and not m['clipped']) else 'CORR'
+        ints = 'samples %s.., bin %s samples, %s bins' % (m['samples'][:4], m['binsize'], m['winsize'])
+        if 'raised' in impl_res:
+            return '%s: real code raised %s (%s) at %s on an in-domain input (%s)' % (
+                kind, impl_res['raised'], impl_res['msg'], impl_res['where'], ints)
+        arr = impl_res['ok']['arr']
         nc = len(exp)
-        if impl_res['ok']['shape'] != [nc, nc, (2 * case['half'] + 1) if case['sym'] else case['half'] + 1]:
-            return 'SPEC: wrong shape %s' % impl_res['ok']['shape']
+        want = [nc, nc, (2 * half + 1) if case['sym'] else half + 1]
+        if impl_res['ok']['shape'] != want:
+            return '%s: wrong shape %s, expected %s (%s)' % (kind, impl_res['ok']['shape'], want, ints)
         if arr != exp:
-            return 'SPEC: correlogram differs from the pair counts'
+            return '%s: correlogram differs from the pair counts (%s)' % (kind, ints)
         if impl_res['ok'].get('args_changed'):
             return 'SPEC: correlograms modified the spike-time / cluster arrays passed by the caller'
         if impl_res['ok'].get('second_differs'):
             return 'SPEC: the same correlogram call gave a different result the second time'
         return None
+    if m.get('model') is None:
+        return 'MACHINERY: generated an out-of-domain case (cluster not in id list)'
+    if 'raised' in impl_res:
+        return 'SPEC: real code raised %s (%s) at %s on an in-domain input' % (
+            impl_res['raised'], impl_res['msg'], impl_res['where'])
+    arr = impl_res['ok']['arr']
     if case['op'] == 'firing':
         # the model's exact rationals count_i*count_j*bin/duration
         qs = [[DC.to_fraction(v) for v in row] for row in m['model']]
@@ -246,14 +294,22 @@ def judge(case, impl_res, ans):
 def nontrivial(case):
     if case['op'] == 'firing':
         return len(case['sc']) > 1
-    if case['op'] in ('increment', 'diff_shifted', 'create'):
+    if case['op'] in ('increment', 'diff_shifted', 'create', 'fl'):
         return True
+    if 'times' in case:
+        t, w = case['times'], case['window']
+        return any(t[i + 1] - t[i] <= w / 2 for i in range(len(t) - 1))
     t, B, h = case['t'], case['bin'], case['half']
     return any((t[i + 1] - t[i]) // B <= h for i in range(len(t) - 1))
 
 
 def tally(rep, case, impl_res, ans):
     rep.count('op:' + case['op'])
+    m = ans.get('ok') or {}
+    if case['op'] == 'fl':
+        for it, inr in zip(case['items'], m.get('inrange', [])):
+            rep.count('fl %s (%s): %s' % (it[0], it[3], 'compared' if inr else 'outside the normal range (not modelled)'))
+        return
     if case['op'] in ('increment', 'diff_shifted', 'create'):
         ok = impl_res.get('ok') or {}
         if 'missing' in ok:
@@ -265,14 +321,31 @@ def tally(rep, case, impl_res, ans):
     if case['op'] == 'firing':
         rep.count('firing ids:%s dur:%s' % ('None' if case.get('ids') is None else 'given', case['dur']))
     if case['op'] == 'ccg':
-        if case.get('wmult') is not None:
-            rep.count('window = %s bins' % ('even' if case['wmult'] == 2 * case['half'] else 'fractional'))
-        if case.get('binfrac'):
-            rep.count('bin = whole + fraction of a sample')
-        if case['t'] and case['t'][0] < 0:
+        if m.get('fl_dom') is False:
+            rep.count('ccg outside the normal range of binary64 (not judged)')
+        elif m.get('model') is None:
+            rep.count('ccg rejected by the model (bin below one sample): real %s' % (
+                'raised ' + impl_res['raised'] if 'raised' in impl_res else 'accepted'))
+        else:
+            rep.count('ccg graded %s (times %s the sample grid%s)' % (
+                'SPEC' if m.get('on_grid') and not m.get('clipped') else 'CORR',
+                'on' if m.get('on_grid') else 'OFF', ', bin/window clipped' if m.get('clipped') else ''))
+            rep.count('exact-rational conversions give %s integers as the float model' % (
+                'the same' if m.get('q_same') else 'OTHER'))
+        if case.get('flkind'):
+            rep.count('doubles: ' + case['flkind'])
+        if 'times' not in case:
+            rep.count('generator integers (t, bin, half) %s by the float model' % (
+                'reproduced' if (m.get('samples') == case['t'] and m.get('binsize') == case['bin'] and
+                                 m.get('winsize') == 2 * case['half'] + 1) else 'NOT reproduced'))
+            if case.get('wmult') is not None:
+                rep.count('window = %s bins' % ('even' if case['wmult'] == 2 * case['half'] else 'fractional'))
+            if case.get('binfrac'):
+                rep.count('bin = whole + fraction of a sample')
+        tt = case['times'] if 'times' in case else case['t']
+        if tt and tt[0] < 0:
             rep.count('negative times')
-    if case['op'] == 'ccg':
-        rep.count('n:%s' % (len(case['t']) if len(case['t']) <= 6 else '7+'))
+        rep.count('n:%s' % (len(tt) if len(tt) <= 6 else '7+'))
         rep.count('sym:%s' % case['sym'])
         ids = case.get('ids')
         if ids is None:
@@ -282,13 +355,13 @@ def tally(rep, case, impl_res, ans):
                 rep.count('ids:unsorted')
             if set(ids) - set(case['sc']):
                 rep.count('ids:with_empty')
-        if len(set(case['t'])) < len(case['t']):
+        if len(set(tt)) < len(tt):
             rep.count('equal_times')
         rep.count('times_dtype:%s' % case.get('tdtype', 'float64'))
         rep.count('ids_container:%s' % (case.get('idskind', 'list') if ids is not None else 'None'))
         if case.get('pre_ids') is not None:
             rep.count('id_array_reordered_in_place_after_an_earlier_call')
-        if case['t'] and case['t'][-1] >= 2 ** 25:
+        if 'times' not in case and tt and tt[-1] >= 2 ** 25:
             rep.count('sample_numbers_beyond_2^25')
 
 
@@ -299,9 +372,10 @@ def classify(case, impl_res, ans, why):
 
 def shrink(case):
     if case['op'] == 'ccg':
-        n = len(case['t'])
+        tk = 'times' if 'times' in case else 't'
+        n = len(case[tk])
         for i in range(n):
-            c = dict(case); c['t'] = case['t'][:i] + case['t'][i + 1:]; c['sc'] = case['sc'][:i] + case['sc'][i + 1:]
+            c = dict(case); c[tk] = case[tk][:i] + case[tk][i + 1:]; c['sc'] = case['sc'][:i] + case['sc'][i + 1:]
             if c.get('ids') is None or set(c['sc']) <= set(c['ids']):
                 yield c
         if case.get('ids'):
@@ -309,7 +383,7 @@ def shrink(case):
                 if case['ids'][i] not in case['sc']:
                     c = dict(case); c['ids'] = case['ids'][:i] + case['ids'][i + 1:]
                     yield c
-        if case['half'] > 0:
+        if case.get('half', 0) > 0:
             c = dict(case); c['half'] = case['half'] - 1; yield c
         if case['sym']:
             c = dict(case); c['sym'] = False; yield c
@@ -318,6 +392,162 @@ def shrink(case):
         for i in range(n):
             c = dict(case); c['sc'] = case['sc'][:i] + case['sc'][i + 1:]
             yield c
+
+
+def _ulps(x, d):
+    """the double |d| places after (d > 0) / before (d < 0) x"""
+    for _ in range(abs(d)):
+        x = math.nextafter(x, math.inf if d > 0 else -math.inf)
+    return x
+
+
+# (bin, window) in seconds as DECIMAL literals: neither is a dyadic rational, `.5*window/bin` is inexact, and the exact
+# quotient of the two doubles often lies on the other side of an integer than the float quotient (0.1 / 2: 9.99..., fl 10)
+DECIMAL_BW = [(0.1, 2.), (0.05, 1.), (0.001, 0.5), (0.002, 0.1), (0.01, 0.3), (0.0005, 0.05), (0.1, 1.), (0.02, 0.5),
+              (0.3, 3.), (0.7, 4.9), (0.001, 0.1), (0.005, 0.25), (0.001, 0.05), (0.2, 2.), (0.025, 0.5), (0.04, 1.),
+              (0.003, 0.09), (0.06, 0.6), (0.001, 0.007), (0.0001, 0.0021)]
+RATES = [30000., 25000., 1000., 10., 20000., 44100., 32000., 100., 2500., 29999.954846]
+
+
+def _times(kind, rng, r, w, n):
+    """n non-decreasing spike times (doubles), a few of them inside half a window of each other"""
+    gap = rng.pick([w / 8, w / 2, w * 2])
+    if kind in ('grid', 'ulp'):
+        T, out = rng.randrange(0, 50), []
+        for _ in range(n):
+            out.append(T / r)
+            T += rng.randrange(0, int(gap * r * 2) + 2)
+        if kind == 'ulp':
+            out = sorted(_ulps(t, rng.randrange(-2, 3)) for t in out)       # an ulp or two around a sample boundary
+        return out
+    if kind in ('dyadic', 'decimal'):
+        den = 64. if kind == 'dyadic' else 1000.
+        k, out = rng.randrange(0, 50), []
+        for _ in range(n):
+            out.append(k / den)
+            k += rng.randrange(0, int(gap * den * 2) + 2)
+        return out
+    t, out = rng.random() * gap, []                                             # 'offgrid': arbitrary doubles
+    for _ in range(n):
+        out.append(t)
+        t += rng.random() * 2 * gap
+    return out
+
+
+def _float_case(rng, kind, r, b, w, n, **kw):
+    times = _times(kind, rng, r, w, n)
+    if rng.random() < .12:
+        off = times[len(times) // 2]
+        times = [t - off for t in times]            # negative times (exact subtraction or not: they are just doubles)
+    nc = rng.randrange(1, 4)
+    sc = [rng.randrange(nc) for _ in range(n)]
+    c = dict(p=PID, op='ccg', times=times, sc=sc, rate=r, bin_size=b, window=w, sym=rng.random() < .5, flkind=kind)
+    if rng.random() < .5:
+        ids = list(range(nc + rng.randrange(0, 2)))
+        rng.shuffle(ids)
+        c['ids'] = ids
+    c.update(kw)
+    return c
+
+
+def _float_cases(tier, rng):
+    """arbitrary doubles: no exactness restriction; the Lean float model supplies the integers"""
+    q = tier == 'quick'
+    # the seeded `//` change of winsize_bins (float floor division takes the floor of the EXACT quotient): on-grid times
+    yield dict(p=PID, op='ccg', times=[0.0, 0.5, 1.0, 1.5, 2.5], sc=[0, 0, 0, 0, 0], rate=10., bin_size=0.1, window=2.,
+               sym=False, flkind='grid')
+    for rep in range(1 if q else 8):
+        for (b, w) in DECIMAL_BW:
+            for r in RATES:
+                for kind in ('grid', 'dyadic', 'offgrid', 'ulp', 'decimal'):
+                    if r * b < 1 and rng.random() < .8:
+                        continue                     # a bin below one sample is rejected: keep a few only
+                    yield _float_case(rng, kind, r, b, w, rng.randrange(2, 14 if q else 50))
+    # bins an ulp or two around a whole number of samples, windows an ulp around an even number of bins: int() of the
+    # float product / quotient flips between k-1 and k
+    cnt = 0
+    for r in RATES:
+        for k in (1, 2, 3, 30, 50):
+            for d in (-2, -1, 0, 1, 2):
+                b = _ulps(k / r, d)
+                for h in (1, 5, 10):
+                    for dw in (-1, 0, 1):
+                        cnt += 1
+                        if q and cnt % 5:
+                            continue
+                        yield _float_case(rng, 'grid', r, b, _ulps(2 * h * b, dw), rng.randrange(2, 9),
+                                          flkind='bin/window an ulp around a whole number')
+    # clipped bins / windows (the code silently uses 1e-5 / 1e5 s), and inputs outside the normal range of binary64
+    for (r, b, w) in ((1e6, 2e-6, 1e-5), (1e6, 1e-6, 4e-5), (1e5, 5e-6, 1e-4), (0.001, 2e5, 5e5), (0.01, 1000., 3e5),
+                      (1e6, 1e-5, 1e-5), (1e-5, 1e5, 1e5)):
+        yield _float_case(rng, 'grid', r, b, w, 5, flkind='bin/window at or beyond the clipping bounds')
+    yield dict(p=PID, op='ccg', times=[0.0, 1e-320, 3e-320], sc=[0, 0, 0], rate=1000., bin_size=0.001, window=0.01,
+               sym=False, flkind='subnormal product')
+    yield dict(p=PID, op='ccg', times=[0.0, 1e300], sc=[0, 0], rate=1e10, bin_size=0.001, window=0.01,
+               sym=False, flkind='overflowing product')
+    # random rates / bins / windows
+    for _ in range(250 if q else 6000):
+        r = rng.pick([rng.pick(RATES), round(rng.random() * 40000 + 1, rng.randrange(0, 4)), rng.random() * 1000 + .5])
+        b = rng.pick([round(rng.random() * .01 + 2 / r, rng.randrange(3, 7)), rng.random() * .05 + 1 / r, rng.randrange(1, 40) / r])
+        w = rng.pick([b * rng.randrange(1, 30), round(b * rng.randrange(1, 30), 4), rng.random() * 40 * b, 2 * rng.randrange(1, 12) * b])
+        if not (b > 0 and w > 0):
+            continue
+        yield _float_case(rng, rng.pick(['grid', 'dyadic', 'offgrid', 'ulp', 'decimal']), r, b, w,
+                          rng.randrange(2, 25 if q else 80))
+
+
+def _fl_items(rng):
+    """one batch of (operation, operands, label): exact rational -> double, against the float unit"""
+    def rd(emin, emax):
+        return rng.pick([1, -1]) * math.ldexp(rng.randrange(2 ** 52, 2 ** 53), rng.randrange(emin, emax) - 52)
+
+    def pw(m, e):                # m * 2^e as an exact fraction (p, q)
+        return (m << e, 1) if e >= 0 else (m, 1 << -e)
+    items = []
+    for _ in range(8):
+        items.append(['frac', rng.pick([1, -1]) * rng.randrange(1, 2 ** rng.randrange(1, 200)),
+                      rng.randrange(1, 2 ** rng.randrange(1, 200)), 'random p/q'])
+    for _ in range(6):          # exact ties: (2m+1) * 2^(e-1), m a 53-bit significand
+        m, e = rng.randrange(2 ** 52, 2 ** 53), rng.randrange(-1000, 900)
+        p, d = pw(2 * m + 1, e - 1)
+        items.append(['frac', rng.pick([1, -1]) * p, d, 'exact tie'])
+        j = rng.randrange(1, 150)                 # ... and a hair beside the tie
+        p2, d2 = pw((2 * m + 1) * 2 ** j + rng.pick([1, -1]), e - 1 - j)
+        items.append(['frac', p2, d2, 'beside a tie'])
+    for _ in range(4):          # around a power of two: the spacing changes there
+        e = rng.randrange(-1000, 1000)
+        for num, sh, lab in ((2 ** 54 - 1, 54, 'tie just below a power of two'), (2 ** 55 - 1, 55, 'quarter ulp below a power of two'),
+                             (2 ** 54 + 1, 54, 'quarter ulp above a power of two'), (1, 0, 'power of two'),
+                             (2 ** 53 + 1, 53, 'tie just above a power of two')):
+            p, d = pw(num, e - sh)
+            items.append(['frac', p, d, lab])
+    for k in range(-2, 4):
+        items.append(['frac', rng.pick([2 ** 53, 2 ** 54, 2 ** 60]) + k, 1, 'integer beyond 2^53'])
+    for _ in range(8):
+        items.append(['mul', rd(-500, 450).hex(), rd(-500, 450).hex(), 'random product'])
+        items.append(['div', rd(-500, 450).hex(), rd(-500, 450).hex(), 'random quotient'])
+    for _ in range(4):          # two odd 27-bit integers: a 54-bit odd product is an exact tie
+        a, b = rng.randrange(2 ** 26, 2 ** 27) | 1, rng.randrange(2 ** 26, 2 ** 27) | 1
+        items.append(['mul', math.ldexp(a, rng.randrange(-300, 300)).hex(), math.ldexp(b, rng.randrange(-300, 300)).hex(),
+                      'product of two 27-bit integers (tie when 54 bits)'])
+    for _ in range(3):          # results around the ends of the normal range (subnormal / overflow are not compared)
+        items.append(['mul', rd(-520, -505).hex(), rd(-520, -505).hex(), 'product near 2^-1022'])
+        items.append(['mul', rd(505, 515).hex(), rd(505, 512).hex(), 'product near 2^1024'])
+        items.append(['div', rd(-520, -505).hex(), rd(505, 520).hex(), 'quotient near 2^-1022'])
+    for _ in range(4):          # the expressions of correlograms / the readers on decimal literals
+        b, w = rng.pick(DECIMAL_BW)
+        r = rng.pick(RATES)
+        items.append(['mul', float(r).hex(), float(b).hex(), 'rate * decimal bin'])
+        items.append(['div', (.5 * w).hex(), float(b).hex(), '.5 * window / bin'])
+        items.append(['mul', (rng.randrange(0, 10 ** 7) / r).hex(), float(r).hex(), '(T / rate) * rate'])
+        items.append(['mul', (600.0).hex(), _ulps((rng.randrange(1, 4000) + .5) / 600., rng.randrange(-3, 4)).hex(),
+                      '600 * rate near a .5 tie'])
+    return items
+
+
+def _fl_cases(tier, rng):
+    for _ in range(50 if tier == 'quick' else 1500):
+        yield dict(p=PID, op='fl', items=_fl_items(rng))
 
 
 def gen(tier, rng):
@@ -347,8 +577,7 @@ def gen(tier, rng):
                         c['binfrac'] = [0.5, 0.25][cnt % 2]
                     if cnt % 11 == 3:
                         c['t'] = [v - 3 for v in c['t']]
-                    if exact(c):
-                        yield c
+                    yield c
     # firing rates
     for n in range(0, 6):
         for sc in itertools.product(range(3), repeat=n):
@@ -417,5 +646,6 @@ def gen(tier, rng):
             c['t'] = [t0 + g * x for x in c['t']]
             c['bin'] = g * rng.pick([1, 2, 3])
             c['tdtype'] = 'float32'
-        if exact(c):
-            yield c
+        yield c
+    yield from _float_cases(tier, rng)
+    yield from _fl_cases(tier, rng)
